@@ -552,6 +552,8 @@ func (p *Prog) immutableGlobal(g *ssa.Global) bool {
 	if !strings.HasPrefix(g.Pkg.Pkg.Path(), modulePath) {
 		return true // assumption: dependencies' package variables are not reassigned
 	}
+	p.mu.Lock()
+	defer p.mu.Unlock()
 	if p.immutCache == nil {
 		p.immutCache = map[*ssa.Global]bool{}
 	}
